@@ -1,7 +1,14 @@
-// build: no-xen
 //! Suites C05 / C16 (one generator + executor, registered under both names): dirty-bitmap tracking.
 //!
-//! case:  hostmod nregions [start,size,ps,flavour]*  step*      (each step one list token)
+//! Runs in the standard build AND in the Xen build (src/mmap/xen.rs instead of unix.rs): there the regions are built with
+//! `MmapRegion::<B>::from_range(MmapRange::new_unix(..))` or - region kind 1 - as a GRANT region mapped in advance over the emulated
+//! gntdev of c17_xen.rs; the Xen constructor creates the bitmap itself (`B::with_len(size)`, B: NewBitmap), so every bitmap
+//! flavour implements NewBitmap here, taking the page size of the case from a static set just before the constructor runs
+//! (flavour 7, and flavour 1 with ps = 4096, are the crate's own `AtomicBitmap::with_len`).
+//!
+//! case:  hostmod nregions [start,size,ps,flavour + 16*rkind]*  step*      (each step one list token)
+//!   rkind 0: the build's ordinary anonymous region; 1 (start a multiple of 4096): in the Xen build a grant region mapped in
+//!   advance, in the standard build the ordinary region again
 //!   step  [0, ri, opcode, a1, a2, a3, a4, nchain, (dop, x, y, z)*]   accessor derived from region ri, then one op
 //!         [1, opcode, a1, a2, a3]                                    guest-memory level op
 //!         [2, ri]                                                    bitmap reset
@@ -37,6 +44,7 @@ use std::sync::atomic::{AtomicUsize, Ordering};
 use std::sync::Arc;
 use std::sync::Mutex;
 use vm_memory::bitmap::{ArcSlice, AtomicBitmap, Bitmap, BitmapSlice, RefSlice, WithBitmapSlice};
+#[cfg(not(feature = "xen"))]
 use vm_memory::mmap::MmapRegionBuilder;
 use vm_memory::volatile_memory::{VolatileArrayRef, VolatileRef};
 use vm_memory::{
@@ -97,7 +105,62 @@ impl Bitmap for ArcBm {
     }
 }
 
-trait Flavour: Bitmap + Sized {
+/// what the region constructor of the build needs from the bitmap type: the Xen constructor (`MmapRegion::from_range`) creates
+/// the bitmap itself through `NewBitmap::with_len(size)`
+#[cfg(feature = "xen")]
+trait FlBase: vm_memory::bitmap::NewBitmap {}
+#[cfg(feature = "xen")]
+impl<T: vm_memory::bitmap::NewBitmap> FlBase for T {}
+#[cfg(not(feature = "xen"))]
+trait FlBase: Bitmap {}
+#[cfg(not(feature = "xen"))]
+impl<T: Bitmap> FlBase for T {}
+
+/// page size `with_len` of the harness flavours uses (set from the case just before a region is constructed)
+static NEXT_PS: AtomicUsize = AtomicUsize::new(4096);
+macro_rules! new_bitmap_via_make {
+    ($($t:ty),*) => {$(
+        impl Default for $t {
+            fn default() -> Self {
+                <$t as Flavour>::make(0, 1)
+            }
+        }
+        impl vm_memory::bitmap::NewBitmap for $t {
+            fn with_len(len: usize) -> Self {
+                <$t as Flavour>::make(len, NEXT_PS.load(Ordering::SeqCst))
+            }
+        }
+    )*};
+}
+new_bitmap_via_make!(Probe, OptSome, OptNone, Grown, WithLenBm, ArcBm, Unit, PlainBm);
+
+/// flavour 1 in the Xen build when the page size of the case is not the host page: AtomicBitmap::new(size, ps) behind a
+/// newtype (AtomicBitmap's own `with_len` fixes the page size)
+pub struct PlainBm(AtomicBitmap);
+impl<'a> WithBitmapSlice<'a> for PlainBm {
+    type S = RefSlice<'a, AtomicBitmap>;
+}
+impl Bitmap for PlainBm {
+    fn mark_dirty(&self, o: usize, l: usize) {
+        self.0.mark_dirty(o, l)
+    }
+    fn dirty_at(&self, o: usize) -> bool {
+        self.0.dirty_at(o)
+    }
+    fn slice_at(&self, o: usize) -> RefSlice<'_, AtomicBitmap> {
+        self.0.slice_at(o)
+    }
+}
+impl Flavour for PlainBm {
+    fn make(size: usize, ps: usize) -> Self {
+        PlainBm(AtomicBitmap::new(size, NonZeroUsize::new(ps).unwrap()))
+    }
+    fn inner(&self) -> Option<&AtomicBitmap> {
+        Some(&self.0)
+    }
+}
+
+trait Flavour: FlBase + Sized {
     fn make(size: usize, ps: usize) -> Self;
     fn inner(&self) -> Option<&AtomicBitmap>;
     /// tells the bitmap where its region's memory is (probing flavour only)
@@ -325,8 +388,11 @@ struct Geo {
 
 fn exec(case: &[Tok]) -> Vec<Tok> {
     let nreg = case[1].u() as usize;
-    let flavour = case[2].l()[3] as u64;
+    let flavour = case[2].l()[3] as u64 % 16;
     match flavour {
+        // Xen build: AtomicBitmap itself gets its page size from the host (NewBitmap::with_len)
+        #[cfg(feature = "xen")]
+        1 if case[2..2 + nreg].iter().any(|g| g.l()[2] != 4096) => run::<PlainBm>(case, nreg),
         1 => run::<AtomicBitmap>(case, nreg),
         2 => run::<OptSome>(case, nreg),
         3 => run::<ArcBm>(case, nreg),
@@ -342,23 +408,60 @@ fn bad() -> Vec<Tok> {
     vec![Tok::L(vec![9, 9])]
 }
 
+/// one tracked region of the case.  Standard build: MmapRegionBuilder::new_with_bitmap (the caller supplies the bitmap).
+#[cfg(not(feature = "xen"))]
+fn mk_region<B: Flavour>(start: u64, size: usize, ps: usize, _rkind: u64, _devfd: &mut Option<i32>) -> Option<GuestRegionMmap<B>> {
+    // (the region kind selects among the Xen mappings; this build has the one kind)
+    let r = MmapRegionBuilder::new_with_bitmap(size, B::make(size, ps))
+        .with_mmap_prot(libc::PROT_READ | libc::PROT_WRITE)
+        .with_mmap_flags(libc::MAP_ANONYMOUS | libc::MAP_PRIVATE | libc::MAP_NORESERVE)
+        .build()
+        .ok()?;
+    GuestRegionMmap::new(r, GuestAddress(start)).ok()
+}
+/// Xen build: MmapRegion::<B>::from_range - the constructor creates the bitmap (B::with_len(size)); rkind 0 a Xen-UNIX range
+/// (MmapRange::new_unix), rkind 1 a grant range mapped in advance over the emulated gntdev
+#[cfg(feature = "xen")]
+fn mk_region<B: Flavour>(start: u64, size: usize, ps: usize, rkind: u64, devfd: &mut Option<i32>) -> Option<GuestRegionMmap<B>> {
+    use super::c17_xen::{dev_install, dev_memfd, dev_reset, file_offset_of};
+    use vm_memory::mmap::{MmapRange, MmapRegion};
+    NEXT_PS.store(ps, Ordering::SeqCst);
+    let range = match rkind {
+        0 => {
+            let mut r = MmapRange::new_unix(size, None, GuestAddress(start));
+            r.set_flags(libc::MAP_ANONYMOUS | libc::MAP_PRIVATE | libc::MAP_NORESERVE);
+            r
+        }
+        1 => {
+            if start % 4096 != 0 || start > (1 << 40) || unsafe { libc::sysconf(libc::_SC_PAGESIZE) } != 4096 {
+                return None;
+            }
+            let fd = *devfd.get_or_insert_with(|| {
+                dev_install();
+                dev_reset(false);
+                // sparse: only the pages the regions touch ever exist
+                dev_memfd((1 << 40) + (1 << 24))
+            });
+            // mmap_flags 2 = MmapXenFlags::GRANT (mapped in advance), domain 1
+            MmapRange::new(size, Some(file_offset_of(fd, 0)), GuestAddress(start), 2, 1)
+        }
+        _ => return None,
+    };
+    let r = MmapRegion::<B>::from_range(range).ok()?;
+    GuestRegionMmap::new(r, GuestAddress(start)).ok()
+}
+
 fn run<B: Flavour + 'static>(case: &[Tok], nreg: usize) -> Vec<Tok> {
     let mut geos = Vec::new();
     let mut regions = Vec::new();
+    // Xen build, grant regions: one emulated device (a memfd whose page i is guest page i) behind all of them
+    let mut devfd: Option<i32> = None;
     for i in 0..nreg {
         let g = case[2 + i].l();
-        let (start, size, ps) = (g[0] as u64, g[1] as usize, g[2] as usize);
-        let r = MmapRegionBuilder::new_with_bitmap(size, B::make(size, ps))
-            .with_mmap_prot(libc::PROT_READ | libc::PROT_WRITE)
-            .with_mmap_flags(libc::MAP_ANONYMOUS | libc::MAP_PRIVATE | libc::MAP_NORESERVE)
-            .build();
-        let r = match r {
-            Ok(r) => r,
-            Err(_) => return bad(),
-        };
-        let gr = match GuestRegionMmap::new(r, GuestAddress(start)) {
-            Ok(x) => x,
-            Err(_) => return bad(),
+        let (start, size, ps, rkind) = (g[0] as u64, g[1] as usize, g[2] as usize, g[3] as u64 / 16);
+        let gr = match mk_region::<B>(start, size, ps, rkind, &mut devfd) {
+            Some(x) => x,
+            None => return bad(),
         };
         geos.push(Geo { start, size, ps });
         regions.push(gr);
@@ -492,6 +595,11 @@ fn run<B: Flavour + 'static>(case: &[Tok], nreg: usize) -> Vec<Tok> {
             }
             out.push(Tok::L(runs));
         }
+    }
+    drop(gm);
+    if let Some(fd) = devfd {
+        // the regions are gone (their grants unmapped through the emulated device): close the device
+        unsafe { libc::close(fd) };
     }
     out
 }
@@ -894,14 +1002,22 @@ fn pick_near(rng: &mut Rng, pivots: &[u64]) -> u64 {
 
 /// descriptor reads that fail part-way (opcode 6, a4 = 2) on regions spanning several host pages
 fn gen_fault(rng: &mut Rng, tier: Tier, emit: &mut dyn FnMut(Vec<Tok>)) {
-    let ncases = if tier == Tier::Quick { 1500 } else { 30_000 };
+    let xen = cfg!(feature = "xen");
+    let ncases = match (tier == Tier::Quick, xen) {
+        (true, false) => 1500,
+        (true, true) => 600,
+        (false, false) => 30_000,
+        (false, true) => 10_000,
+    };
     for _ in 0..ncases {
         let flavour = *rng.pick(&[1u64, 1, 5, 5, 6, 6, 2, 3, 4, 0, 7, 7]);
         let ps = *rng.pick(&[64u64, 100, 512, 1024, 4096, 4096, 5000, 8192]);
         let ps = if flavour == 7 { 4096 } else { ps };
         let size = *rng.pick(&[4097u64, 4200, 8192, 8193, 12288, 16000, 20000]) + rng.below(3);
         let start = *rng.pick(&[0u64, 0x1000, 0x7fff_f000]);
-        let mut case = vec![n(0u8), n(1u8), Tok::of_u64s(&[start, size, ps, flavour])];
+        // Xen build: every third region is a grant region mapped in advance (the starts are page multiples)
+        let rkind = if xen && rng.chance(1, 3) { 1 } else { 0 };
+        let mut case = vec![n(0u8), n(1u8), Tok::of_u64s(&[start, size, ps, flavour + 16 * rkind])];
         for _ in 0..1 + rng.below(3) {
             // accessor: the region itself, a sub-slice, or an offset slice
             let mut chain: Vec<u64> = Vec::new();
@@ -972,9 +1088,17 @@ fn gen_fault(rng: &mut Rng, tier: Tier, emit: &mut dyn FnMut(Vec<Tok>)) {
 
 fn gen(rng: &mut Rng, tier: Tier, emit: &mut dyn FnMut(Vec<Tok>)) {
     gen_fault(rng, tier, emit);
-    let ncases = if tier == Tier::Quick { 8000 } else { 120_000 };
+    let xen = cfg!(feature = "xen");
+    let ncases = match (tier == Tier::Quick, xen) {
+        (true, false) => 8000,
+        (true, true) => 3500,
+        (false, false) => 120_000,
+        (false, true) => 40_000,
+    };
     for _ in 0..ncases {
         let flavour = *rng.pick(&[1u64, 1, 5, 5, 6, 6, 2, 3, 4, 0, 7]);
+        // Xen build: a third of the cases on grant regions mapped in advance (starts rounded up to page multiples)
+        let rkind = if xen && rng.chance(1, 3) { 1u64 } else { 0 };
         let nreg = 1 + rng.below(3) as usize;
         let mut geos: Vec<(u64, u64, u64)> = Vec::new();
         let mut next = *rng.pick(&[0u64, 0x1000, 0x7fff_f000]);
@@ -992,10 +1116,13 @@ fn gen(rng: &mut Rng, tier: Tier, emit: &mut dyn FnMut(Vec<Tok>)) {
             };
             geos.push((next, size, ps));
             next = next + size + *rng.pick(&[0u64, 0, 1, 7, 4096]);
+            if rkind == 1 {
+                next = (next + 4095) & !4095;
+            }
         }
         let mut case = vec![n(0u8), n(nreg as u64)];
         for g in &geos {
-            case.push(Tok::of_u64s(&[g.0, g.1, g.2, flavour]));
+            case.push(Tok::of_u64s(&[g.0, g.1, g.2, flavour + 16 * rkind]));
         }
         let nsteps = 1 + rng.below(8);
         for _ in 0..nsteps {
